@@ -49,7 +49,7 @@ MANIFEST = {
 PKG_V1 = {"pkg/__init__.py": '"""Pkg v1."""\nfrom pkg.a import f\nVALUE = 1\n', "pkg/a.py": 'def f(x, y=1):\n    """Doc f."""\n    return x\n'}
 PKG_V2 = {"pkg/__init__.py": '"""Pkg v2."""\nfrom pkg.a import f\nVALUE = 2\n', "pkg/a.py": 'def f(x):\n    """Doc f."""\n    return x\n'}
 WRITER = "import os\nopen(os.path.join(os.path.dirname(__file__), 'written_at_import.txt'), 'w').close()\n"
-HISTORIES = ["plain", "slash-branch", "detached", "user-worktree", "dirty", "syntax-error-in-old", "absent-in-old", "writes-at-import", "stash"]
+HISTORIES = ["plain", "slash-branch", "detached", "user-worktree", "dirty", "syntax-error-in-old", "absent-in-old", "writes-at-import", "stash", "user-griffe-branches"]
 OPS = ["load-static", "load-inspect", "load-extension", "load-unknown-ref", "load-slash-branch", "check", "check-base-ref"]
 
 
@@ -84,6 +84,17 @@ def build_repo(history, root):
     sandbox.write_tree(repo, v2)
     _git(["add", "-A"], repo)
     _git(["commit", "-q", "-m", "two"], repo)
+    if history == "user-griffe-branches":
+        # the user's own branches happen to be called like the temporary branches Griffe creates (griffe-<normalised ref>);
+        # they carry a commit reachable from nowhere else
+        _git(["branch", "feature/x", "v1"], repo)
+        _git(["checkout", "-q", "-b", "griffe-v1", "v1"], repo)
+        sandbox.write_tree(repo, {"user-notes.txt": "precious\n"})
+        _git(["add", "-A"], repo)
+        _git(["commit", "-q", "-m", "user work"], repo)
+        _git(["branch", "griffe-feature-x"], repo)
+        _git(["branch", "griffe-main"], repo)
+        _git(["checkout", "-q", "main"], repo)
     if history == "detached":
         _git(["checkout", "-q", "--detach", "v1"], repo)
     if history == "user-worktree":
@@ -270,6 +281,8 @@ def operate(griffe, op, repo, inj):
 
 
 def applicable(history, op):
+    if history == "user-griffe-branches":
+        return op in ("load-static", "load-slash-branch", "check", "check-base-ref")
     if op == "check-base-ref":
         return history in ("plain", "dirty", "user-worktree")
     if op == "load-slash-branch":
